@@ -319,6 +319,18 @@ fn oracle(
                 );
             }
             if expect_time_change {
+                // the contact happened with the update-check request that was answered (the last
+                // one of the check): a last-contact time from before that request went out is not
+                // the time of that contact
+                let sent = seg.iter().filter_map(|o| if let Obs::Req(r) = o { if r.kind == ReqKind::UpdateCheck { Some(r.sent_wall) } else { None } } else { None }).last();
+                if let (Some(sent), Some(w)) = (sent, sched.last_update_time.and_then(|t| t.wall)) {
+                    if w <= sent && w > *lo {
+                        return bad(
+                            format!("last-contact time after a {step:?} check precedes the sending of the request that was answered"),
+                            format!("announced {w}, answered request sent at {sent}, check window ({lo}, {hi}]"),
+                        );
+                    }
+                }
                 match sched.last_update_time.and_then(|t| t.wall) {
                     Some(w) if w > *lo && w <= *hi => after.time = sched.last_update_time,
                     other => {
@@ -339,6 +351,12 @@ fn oracle(
             let s = evs.iter().rev().find_map(|e| if let Ev::Sched(s) = e { Some(*s) } else { None });
             // the last schedule event of the segment comes from the next wait computation and
             // carries the same last_update_time
+            let sent = seg.iter().filter_map(|o| if let Obs::Req(r) = o { if r.kind == ReqKind::Ping { Some(r.sent_wall) } else { None } } else { None }).last();
+            if let (Some(sent), Some(w)) = (sent, s.and_then(|s| s.last_update_time).and_then(|t| t.wall)) {
+                if w <= sent && w > *lo {
+                    return bad("last-contact time after a successful ping precedes the sending of the ping", format!("announced {w}, ping sent at {sent}"));
+                }
+            }
             match s.and_then(|s| s.last_update_time).and_then(|t| t.wall) {
                 Some(w) if w > *lo && w <= *hi => after.time = s.unwrap().last_update_time,
                 other => return bad("last-contact time not advanced by a successful ping", format!("announced {other:?}, window ({lo}, {hi}]")),
@@ -491,6 +509,15 @@ fn run_oneshot(ctx: &RunCtx) -> RunOut {
     }
     let t = sched.last_update_time.and_then(|t| t.wall);
     if touches_time(class) {
+        let sent = log.iter().filter_map(|o| if let Obs::Req(r) = o { if r.kind == ReqKind::UpdateCheck { Some(r.sent_wall) } else { None } } else { None }).last();
+        if let (Some(sent), Some(w)) = (sent, t) {
+            if w <= sent && w > trunc_us(lo) {
+                return out.fail(
+                    format!("committed last-contact time after a one-shot {class:?} check precedes the sending of the request that was answered"),
+                    format!("{w} vs request sent at {sent}"),
+                );
+            }
+        }
         match t {
             Some(w) if w > trunc_us(lo) && w <= hi => {}
             other => return out.fail(format!("after a one-shot {class:?} check the committed last-contact time is not inside the check"), format!("{other:?} not in ({lo}, {hi}]")),
